@@ -48,6 +48,13 @@ DESC3 = {
 }
 
 
+# seeded changes that no longer break their property on the current tree, because a later fix: commit removed the weakness they exploited
+NEUTRAL = {
+    "C15-2": "since fix: fdebf6b (F-55) format_code validates the output of the format-command: the empty output of a formatter killed by a signal is rejected, a problem is reported and the unformatted code is used",
+    "C18-4": "since fix: 7319c21 (F-59) comparisons that raise while the members of an `in` snapshot are classified count as not equal: the assertion inside Unmanaged.__eq__ no longer leaves pytest_sessionfinish",
+}
+
+
 def load_eval(sid):
     p = f"/tmp/seed3eval/final/{sid}.txt"
     if not os.path.exists(p):
@@ -75,7 +82,9 @@ def main():
         mp = f"{d}/meta.json"
         if sid in DESC3:
             what, needs, missed = DESC3[sid]
-            if e is None or not e.get("valid"):
+            if e is not None and not e.get("valid") and sid in NEUTRAL:
+                pass
+            elif e is None or not e.get("valid"):
                 print("not (yet) validated:", sid, None if e is None else (e.get("demo_clean"), e.get("demo_patched"), e.get("suite"), e.get("error")))
                 continue
             meta = {"property": sid[:3], "round": 3, "change": what, "needs_to_manifest": needs,
@@ -83,6 +92,8 @@ def main():
                     "validated": {"how": "tools/eval3.py in a scratch worktree of /repo HEAD: demo on the clean tree, demo with the patch, pinned suite with the patch",
                                   "demo_on_clean_tree_exit": e["demo_clean"][0], "demo_with_patch_exit": e["demo_patched"][0], "suite_with_patch": e.get("suite", ["?"])[0]},
                     "missed_by_own_check_when_first_evaluated": missed, "detected_by": detected(e)}
+            if sid in NEUTRAL:
+                meta["neutralised"] = NEUTRAL[sid] + " (demo exits 0 with the patch applied to the current tree; validated against the tree it was written for)"
             if os.path.exists(f"{d}/patch.rebased.diff"):
                 meta["note"] = "patch.rebased.diff is the change merged onto later fix: commits of /repo (patch.diff is what the sub-agent delivered)"
             json.dump(meta, open(mp, "w"), indent=1)
@@ -94,6 +105,10 @@ def main():
             meta["revalidated"] = {"repo_head": os.popen("git -C /repo log --format=%h -1").read().strip(), "demo_on_clean_tree_exit": e.get("demo_clean", [None])[0],
                                    "demo_with_patch_exit": e.get("demo_patched", [None])[0], "suite_with_patch": (e.get("suite") or ["?"])[0], "valid": e.get("valid")}
             meta["detected_by_final"] = detected(e)
+            if sid in NEUTRAL:
+                meta["neutralised"] = NEUTRAL[sid] + " (demo exits 0 with the patch applied to the current tree)"
+            if os.path.exists(f"{d}/patch.rebased.diff"):
+                meta["note"] = "patch.rebased.diff is the change merged onto later fix: commits of /repo"
             json.dump(meta, open(mp, "w"), indent=1)
 
 
